@@ -110,3 +110,8 @@ func Explore(bound int, st *Stats, body func(x *X)) (execs int64, diverged strin
 	rec(nil)
 	return
 }
+
+// ExploreOne runs body once with the given choice vector as prefix (choice 0 afterwards); a divergence panics.
+func ExploreOne(choices []int, body func(x *X)) {
+	body(&X{prefix: choices})
+}
